@@ -197,16 +197,13 @@ func treeExplore(r *mc.Run, prop string) {
 	}
 	r.Set("tree_max_nodes", maxN)
 	r.Set("trees", len(shapes))
-	ncfg := 3 // the three signature-checking configurations
-	if prop == "C04" {
-		ncfg = len(attCfgs)
-	}
+	ncfg := len(attCfgList(prop, false))
 	r.Par(len(shapes), func(i int) {
 		t := shapes[i]
 		xml := buildTree(t.root, t.depths, t.labels, p)
 		enc := idp.Encode(xml, i%5 == 0)
 		sp := attCfgs[0].Conf.Build()
-		for ci := 0; ci < ncfg; ci++ {
+		for _, ci := range attCfgList(prop, i%11 == 0) {
 			keys, detail, class := attJudge(enc, xml, ci, sp)
 			r.Eval(1)
 			r.Bucket("tree/" + class)
